@@ -15,6 +15,7 @@ pub mod c10;
 pub mod c11;
 pub mod c12;
 pub mod c13;
+pub mod c15;
 pub mod c16;
 pub mod c19;
 pub mod c20;
@@ -29,6 +30,7 @@ pub fn run(ctx: &Ctx) -> Option<Report> {
         "C04" => c04::run(ctx),
         "C05" => c05::run(ctx),
         "C06" => c06::run(ctx),
+        "C15" => c15::run(ctx),
         "C16" => c16::run(ctx),
         "C17" => c17::run(ctx),
         "C07" => c07::run(ctx),
@@ -54,6 +56,7 @@ pub fn replay(id: &str, case: &serde_json::Value) -> Option<Result<(), String>> 
         "C04" => c04::replay(case),
         "C05" => c05::replay(case),
         "C06" => c06::replay(case),
+        "C15" => c15::replay(case),
         "C16" => c16::replay(case),
         "C17" => c17::replay(case),
         "C07" => c07::replay(case),
@@ -78,6 +81,7 @@ pub fn child(name: &str, args: &[String]) -> Option<i32> {
         "c16" => c16::child(args),
         "c16one" => c16::child_one(args),
         "c18" => c18::child(args),
+        "c15reload" => c15::child_reload(args),
         "c09zone" => c09::child_zone(),
         "c09sweep" => c09::child_sweep(),
         _ => return None,
